@@ -39,7 +39,10 @@ Lib == [ R  |-> << <<"in">>, <<"out">> >>,
          BB |-> << <<"in">>, <<"lib", "basicauth-bad">>, <<"out">> >>,
          BO |-> << <<"in">>, <<"lib", "basicauth-ok">>, <<"out">> >>,
          TF |-> << <<"in">>, <<"lib", "timeout-fired">>, <<"out">> >>,
-         TI |-> << <<"in">>, <<"lib", "timeout-idle">>, <<"out">> >> ]
+         TI |-> << <<"in">>, <<"lib", "timeout-idle">>, <<"out">> >>,
+         \* response helpers of Context called by a handler (RuxChainFn.LibOps)
+         NC |-> << <<"in">>, <<"lib", "nocontent">>, <<"next">>, <<"out">> >>,     \* answers 204 - nothing is committed yet - and lets the chain go on
+         TX |-> << <<"in">>, <<"lib", "text200">>, <<"out">> >> ]
 
 Chains ==
   CASE Mode = "all"     -> UNION { { [i \in 1..n |-> Lib[f[i]]] : f \in [1..n -> Scripts] } : n \in MinN..MaxN }
